@@ -452,7 +452,7 @@ impl Check for SwCheck {
     fn sanitizer_steps(&self, seed: u64, agg: &mut Agg) {
         if self.mode != SMode::Coherence {
             // salsa + parking_lot + rowan + the indexer under the Miri interpreter (tiny two-file workspaces)
-            crate::sanit::miri("ide", seed, 16, 3, agg);
+            crate::sanit::miri("ide", seed, 16, 2, agg);
         }
     }
     fn technique(&self) -> &'static str {
